@@ -75,6 +75,7 @@ def worker_main(argv) -> int:
         raise WallTimeout()
 
     signal.signal(signal.SIGALRM, on_alarm)
+    cover = _start_cover(check_name)
     for case in cases:
         t0 = time.time()
         try:
@@ -120,7 +121,40 @@ def worker_main(argv) -> int:
         results.append(out)
     with open(out_file, "w") as f:
         json.dump(results, f)
+    if cover is not None:
+        cover()
     return 0
+
+
+def _start_cover(check_name):
+    """HV_COVER=<dir>: record which lines of the tree under test this worker executed (tools/coverage.py sums them up).
+
+    Reporting aid only - it tells me which paths no workload drives; it takes no part in any verdict."""
+    d = os.environ.get("HV_COVER")
+    if not d:
+        return None
+    import httpcore
+    base = os.path.dirname(httpcore.__file__) + os.sep
+    seen: set = set()
+    m = sys.monitoring
+    tool = 2
+
+    def cb(code, line):
+        fn = code.co_filename
+        if fn.startswith(base):
+            seen.add((fn[len(base):], line))
+        return m.DISABLE
+
+    m.use_tool_id(tool, "hv-cover")
+    m.register_callback(tool, m.events.LINE, cb)
+    m.set_events(tool, m.events.LINE)
+
+    def dump():
+        m.set_events(tool, 0)
+        os.makedirs(d, exist_ok=True)
+        with open(os.path.join(d, f"{check_name}-{os.getpid()}.json"), "w") as f:
+            json.dump(sorted(seen), f)
+    return dump
 
 
 # ---------------------------------------------------------------------------------
@@ -259,8 +293,11 @@ def run_check(check_name: str, tier: str, seed: int, replay: str | None = None, 
         "violations": len(new_viol),
     }
     if not replay:
-        os.makedirs(os.path.join(VERIF, "evidence"), exist_ok=True)
-        with open(os.path.join(VERIF, "evidence", f"{prop}.json"), "w") as f:
+        # runs against a scratch tree (mutants, seeded breaks, coverage) set HV_EVIDENCE_DIR so that the committed
+        # evidence, which must describe /repo itself, is not overwritten
+        evdir = os.environ.get("HV_EVIDENCE_DIR") or os.path.join(VERIF, "evidence")
+        os.makedirs(evdir, exist_ok=True)
+        with open(os.path.join(evdir, f"{prop}.json"), "w") as f:
             json.dump(ev, f, indent=1)
     summary = {k: counters[k] for k in sorted(counters)}
     print(f"{prop} {tier} seed={seed}: cases={len(results)} distinct_nontrivial={len(sigs)} "
